@@ -18,9 +18,20 @@ for id in $ids; do
 import json,sys,re,time
 p,res,viol,prop=sys.argv[1:5]
 m=json.load(open(p))
+head=__import__('subprocess').check_output(['git','-C','/repo','log','--format=%h','-1']).decode().strip()
 kv=dict(x.split('=') for x in res.replace('RESULT','').replace('checks:','').split() if '=' in x)
-m['confirmed']={'pinned_suite_passes_with_patch':kv.get('suite_ok')=='yes','demo_fails_with_patch':kv.get('demo_fails_with')=='yes','demo_passes_without_patch':kv.get('demo_passes_without')=='yes','how':'scripts/verify_seed.sh (scratch worktrees of /repo, removed afterwards)'}
-m['detected_by']={'check':'./check %s quick'%prop,'exit':int(kv.get(prop,'-1')),'first_violation':viol.strip()}
+if 'patch_applies=no' in res:
+    m.setdefault('superseded_note','the patch no longer applies to /repo at %s (a later fix: commit rewrote the same code); earlier recorded results are kept'%head)
+    m['last_run']={'repo_head':head,'result':'patch does not apply'}
+elif kv.get('suite_ok')!='yes':
+    m.setdefault('superseded_note','against /repo at %s this patch makes the pinned suite fail (it is caught by the existing tests), so it no longer qualifies as a seeded change; earlier recorded results are kept'%head)
+    m['last_run']={'repo_head':head,'result':'pinned suite fails with the patch'}
+elif kv.get('demo_fails_with')!='yes' and 'superseded_note' in m:
+    m['last_run']={'repo_head':head,'result':'demonstration no longer fails (change neutralised by a later fix)'}
+else:
+    m['confirmed']={'pinned_suite_passes_with_patch':kv.get('suite_ok')=='yes','demo_fails_with_patch':kv.get('demo_fails_with')=='yes','demo_passes_without_patch':kv.get('demo_passes_without')=='yes','how':'scripts/verify_seed.sh (scratch worktrees of /repo at %s, removed afterwards)'%head}
+    m['detected_by']={'check':'./check %s quick'%prop,'exit':int(kv.get(prop,'-1')),'first_violation':viol.strip()}
+    m['last_run']={'repo_head':head,'result':'confirmed and run'}
 json.dump(m,open(p,'w'),indent=1,ensure_ascii=False)
 print(m['id'],res, '|', viol.strip()[:120])
 EOF
